@@ -7,17 +7,19 @@
 //! Oracle: `to_substrait_plan(plan)` → protobuf bytes → `deserialize_bytes` → `from_substrait_plan` in the fresh
 //! session → execute: same rows as the original plan (multiset; sorted when the query orders), same column
 //! names, logically equal column types. Producer errors of any kind and consumer errors of class
-//! `NotImplemented` / `Substrait` are discards (construct outside the supported subset), histogrammed by
-//! message; any other consumer error, and any error while executing the consumed plan, is a violation (the
-//! producer accepted the plan, so the statement's "and back yields a plan that returns the same rows" applies).
+//! ANY class are discards (the statement quantifies over supported plans: a refused way back means the plan is
+//! not one; histogrammed by message, label `consumer-refused:plan-error` for non-NotImplemented classes, e.g.
+//! `0 PRECEDING` frame bounds, LeftMark joins, joins without condition). Once `from_substrait_plan` has YIELDED a
+//! plan, that plan must run and return the same rows: an error while planning / executing it is a violation.
 //!
 //! Non-trivial: plan has a join, aggregate, set operation, window or subquery, and the result is non-empty.
 //!
 //! # Recorded findings (message-shape rules in ../signatures.json — FAMILIES keyed by symptom + construct, coarser
 //! than a root cause; regression cases under /verif/regressions/C37/c37/)
-//! `substrait-range-frame-offset-becomes-unbounded` (wrong rows), `substrait-window-frame-zero-offset-rejected`,
-//! `substrait-alias-loss-breaks-correlated-subquery` (wrong rows or analyzer failure), `substrait-consumer-self-join-alias-breaks-references`,
-//! `substrait-mark-join-duplicate-mark-column`, `substrait-join-without-condition`, `substrait-consumed-aggregate-nullability-mismatch`.
+//! `substrait-range-frame-offset-becomes-unbounded` (wrong rows), `substrait-alias-loss-breaks-correlated-subquery`
+//! (wrong rows, or the yielded plan fails in the analyzer), `substrait-consumer-self-join-alias-breaks-references`
+//! (yielded plan fails), `substrait-null-aware-anti-join-flag-lost` (wrong rows). The engine's own `Physical input
+//! schema should be the same ...` internal error on the consumed side is a discard (reproducible without Substrait).
 //! A plan scanning a table function (generate_series) is a discard: Substrait names tables and the consuming
 //! session has no such table.
 //!
@@ -99,13 +101,19 @@ async fn run_async(case: &Case, fx: &Fixture) -> CaseResult {
     };
     let back = match from_substrait_plan(&b.ctx.state(), &sp2).await {
         Ok(p) => p,
-        Err(e) if unsupported(&e) => return CaseResult::discard(format!("consumer: {}", err_key(&e))).labels(labels).label("consumer-refused"),
-        Err(e) => return CaseResult::violation(format!("the producer accepts the plan but the consumer fails on its output: {}{}", err_text(&e), ctxt())).labels(labels),
+        // the statement speaks about SUPPORTED plans: when the way back is refused (any error class) the plan is not one
+        Err(e) => {
+            let class = if unsupported(&e) { "consumer-refused" } else { "consumer-refused:plan-error" };
+            let key: String = err_key(&e).chars().take(48).collect();
+            return CaseResult::discard(format!("consumer: {key}")).labels(labels).label(class);
+        }
     };
     let ctxt2 = || format!("{}\n  consumed plan:\n{}", ctxt(), back.display_indent());
     let decoded = match exec_logical(&b.ctx, &back).await {
         Ok(x) => x,
         Err(e) if matches!(e.find_root(), DataFusionError::NotImplemented(_)) => return CaseResult::discard(format!("consumed plan not executable: {}", err_key(&e))).labels(labels),
+        // engine defect reproducible without Substrait (SingleDistinctToGroupBy + `IS TRUE` nullability): out of scope here
+        Err(e) if e.to_string().contains("Physical input schema should be the same as the one converted from logical input schema") => return CaseResult::discard("consumed plan hits the engine's physical/logical schema nullability mismatch (not a Substrait matter)").labels(labels),
         Err(e) => return CaseResult::violation(format!("the consumed plan fails to run although the original runs: {}{}", err_text(&e), ctxt2())).labels(labels),
     };
     let (n0, n1) = (field_names(&original.schema), field_names(&decoded.schema));
